@@ -78,6 +78,26 @@ Proof. exact closed_creates. Qed.
 Theorem C09_src_skips_closed : skips_closed src_cfg = true.
 Proof. exact src_skips_closed. Qed.
 
+(* an association that has ended by returning io.EOF (idle expiry) and whose notification is no
+   longer queued owns no table entry, so no datagram the loop takes from now on is handed to it -
+   for every configuration whose Read notifies the loop with a blocking send *)
+Theorem C09_fresh_after_idle_expiry : forall g ts s c k,
+  notifies_reliably g -> run g init ts = Some s ->
+  get s c = Some k -> In c (eofs (trace s)) -> ~ In (caddr k, c) (closeCh s) ->
+  lookup (caddr k) (table s) <> Some c.
+Proof. exact eof_forgotten. Qed.
+Theorem C09_src_notifies_reliably : notifies_reliably src_cfg.
+Proof. exact src_notifies_reliably. Qed.
+(* a notification sent with select/default is lost when closeCh is full: the loop blocked on a full
+   readCh, ten associations finishing, the victim idling out, then its next datagram goes to the
+   association that has ended *)
+Theorem C09_fresh_after_idle_expiry_refuted_for_nonblocking_notification :
+  exists s, run lossy_cfg init lossy_witness = Some s /\
+    In 0 (eofs (trace s)) /\ closeCh s = [] /\ pending s = Some (D 1 30 8%N, 0) /\ length (conns s) = 12.
+Proof. exact lossy_serves_ended_association. Qed.
+Example C09_src_blocks_where_lossy_drops : run src_cfg init lossy_witness = None.
+Proof. exact src_blocks_instead. Qed.
+
 (* ---- loop_never_panics ---- *)
 
 (* any Close that never closes readCh (closure is signalled on a separate channel) *)
@@ -160,6 +180,10 @@ Print Assumptions C09_fresh_after_end.
 Print Assumptions C09_next_datagram_creates.
 Print Assumptions C09_fresh_as_soon_as_closed.
 Print Assumptions C09_src_skips_closed.
+Print Assumptions C09_fresh_after_idle_expiry.
+Print Assumptions C09_src_notifies_reliably.
+Print Assumptions C09_fresh_after_idle_expiry_refuted_for_nonblocking_notification.
+Print Assumptions C09_src_blocks_where_lossy_drops.
 Print Assumptions C09_loop_never_panics_fixed.
 Print Assumptions C09_loop_never_panics.
 Print Assumptions C09_loop_never_panics_refuted.
